@@ -156,13 +156,14 @@ PROPS = {
     "C12": {
         "module": "HctlProofs.Props.C12",
         "theorems": ["Hctl.C12.attractor_pattern_exact", "Hctl.C12.fixedPoint_pattern_exact", "Hctl.C12.steady_shortcut_correct",
-                     "Hctl.C12.steady_shortcut_eq_generic", "Hctl.C12.attractor_shortcut_correct"],
+                     "Hctl.C12.steady_shortcut_eq_generic", "Hctl.C12.attractor_shortcut_correct",
+                     "Hctl.C12.attractor_shortcut_model", "Hctl.C12.attractor_shortcut_eq_generic", "Hctl.attrSpec"],
         "ks": ["o12", "k7"],
         "spec_tied": ["o12:pure_", "k7:pure_"],
-        "full": False,
-        "not_proved": "the attractor shortcut is proved under the stated specification of the external attractor algorithm "
-                      "(terminal SCCs; hypothesis hattr); the model's own breadth-first computation of it is compared with the "
-                      "library's result by K7 (request `attractors`) but not proved equal to the specification in Lean",
+        "full": True,
+        "not_proved": "nothing of the statement on the model: the model's attractor computation (bounded breadth-first search) is proved "
+                      "to return exactly the terminal SCCs (attrSpec), so both shortcuts equal generic evaluation on every graph; that "
+                      "the external library (ITGR + Xie-Beerel) computes the same set is compared by K7 (request `attractors`) on every run",
         "rule": "O12: 18 pattern / near-miss formulae vs pattern-defeating rewrites, at top level, under operators, in quantifier and "
                 "domain scopes, in batches, on all networks (incl. constrained parameters), random domain sets",
         "assumptions": EVAL_ASSUME,
@@ -275,7 +276,7 @@ PROPS = {
         "ks": ["o04", "k7"],
         "spec_tied": ["o04:pure_", "k7:pure_"],
         "full": False,
-        "not_proved": 'hypotheses of the cache theorem, NOT proved in Lean: KeySem (equal canonical keys => the cached set renamed back denotes the other sub-formula), KeyWild (only %w% has the key of %w%), AttrSpec (attractor computation = terminal SCCs), GraphAsync (a transition changes the state), and that all keys in the duplicate map have at most one variable; they are the semantic content of C09 and of the library specification, and are exercised by K5/K6/K7 and the batch oracles on every run' + "; the initial context with wild-cards pre-loaded (extend_context_with_wild_cards) is covered "
+        "not_proved": 'hypotheses of the cache theorem, NOT proved in Lean: KeySem (equal canonical keys => the cached set renamed back denotes the other sub-formula), KeyWild (only %w% has the key of %w%), GraphAsync (a transition changes the state), and that all keys in the duplicate map have at most one variable; they are the semantic content of C09 and of the library specification, and are exercised by K5/K6/K7 and the batch oracles on every run' + "; the initial context with wild-cards pre-loaded (extend_context_with_wild_cards) is covered "
                       "by the invariant's clauses but not derived from the model's function in Lean; the progress callback is not "
                       "an input of the model (it only receives references in Rust) — checked by the oracle",
         "rule": "O04: batches of 2-4 extended formulae with planted overlaps (sub-formulae shared up to renaming, closed under fresh "
@@ -290,7 +291,7 @@ PROPS = {
         "ks": ["o14", "k7"],
         "spec_tied": ["o14:pure_", "k7:pure_"],
         "full": False,
-        "not_proved": 'hypotheses of the cache theorem, NOT proved in Lean: KeySem (equal canonical keys => the cached set renamed back denotes the other sub-formula), KeyWild (only %w% has the key of %w%), AttrSpec (attractor computation = terminal SCCs), GraphAsync (a transition changes the state), and that all keys in the duplicate map have at most one variable; they are the semantic content of C09 and of the library specification, and are exercised by K5/K6/K7 and the batch oracles on every run' + "; stated for plain formulae (the extended case adds the clause 'missing context label' "
+        "not_proved": 'hypotheses of the cache theorem, NOT proved in Lean: KeySem (equal canonical keys => the cached set renamed back denotes the other sub-formula), KeyWild (only %w% has the key of %w%), GraphAsync (a transition changes the state), and that all keys in the duplicate map have at most one variable; they are the semantic content of C09 and of the library specification, and are exercised by K5/K6/K7 and the batch oracles on every run' + "; stated for plain formulae (the extended case adds the clause 'missing context label' "
                       "which the model checks in parseAll and the correspondence compares); panics inside the BDD / graph libraries "
                       "and stack exhaustion on unbounded nesting are outside the model",
         "rule": "O14: every string entry point (plain/extended, raw/sanitised, unsafe_ex) under catch_unwind on random, "
@@ -408,7 +409,7 @@ MANIFEST_TEXT.update({
     "C04": _ev("Lean theorem evalNode_sound / cache_transparent: from EVERY evaluation context satisfying an explicit invariant (hence after "
                "any history, with any duplicate counters) the cached evaluator returns exactly the satisfaction set, keeps the invariant "
                "and restores the open scopes; batches are exact position by position, so order, repetition and sharing cannot matter. "
-               "Two facts about canonical keys and the attractor library specification are hypotheses (see evidence). Oracle: batch vs "
+               "Two facts about canonical keys are hypotheses (see evidence); the model's attractor computation is proved to return the terminal SCCs. Oracle: batch vs "
                "single vs sharing disabled vs reordered vs repeated vs observed runs through the public API.",
                tech="Lean 4 proof (invariant over the cache state, induction over eval_node) + differential correspondence check + batch oracles"),
     "C14": _ev("Lean theorems: no panic site of the evaluator model is reachable from preprocessed formulae the graph supports (corollary "
